@@ -100,10 +100,11 @@ func checkC11(c *core.Check) {
 		byGlobal[k] = append(byGlobal[k], s)
 	}
 	sort.Strings(gkeys)
-	type kinds struct{ b, c string }
-	kindSets := []kinds{{"apiKeyHeader", "basic"}, {"apiKeyQuery", "oauth2"}}
+	type kinds struct{ b, c, a string }
+	// (third set: no http bearer scheme at all, scheme A is an apiKey that travels in the Authorization header)
+	kindSets := []kinds{{"apiKeyHeader", "basic", "bearer"}, {"apiKeyQuery", "oauth2", "bearer"}, {"apiKeyQuery", "apiKeyCookie", "apiKeyHeader"}}
 	if thorough {
-		kindSets = append(kindSets, kinds{"apiKeyHeader", "openIdConnect"}, kinds{"apiKeyQuery", "apiKeyCookie"})
+		kindSets = append(kindSets, kinds{"apiKeyHeader", "openIdConnect", "bearer"}, kinds{"apiKeyQuery", "apiKeyCookie", "bearer"}, kinds{"apiKeyHeader", "basic", "apiKeyHeader"})
 	}
 	rng := rand.New(rand.NewSource(c.Seed))
 	specs := map[string]*aspec.ASpec{}
@@ -118,7 +119,7 @@ func checkC11(c *core.Check) {
 			a := &aspec.ASpec{Base: aspec.Base{Form: "servers", Segs: []string{"v1"}}, SpecName: "openapi.yaml",
 				// every other package is generated with CORS on (synthetic preflight entries next to the operations)
 				Flags: aspec.Flags{APIHandler: true, DoNotEdit: true, Cors: (gi+ki)%2 == 0}, Security: toSec(list[0].Global),
-				Schemes: []aspec.Scheme{{Key: "A", Kind: "bearer"}, {Key: "B", Kind: ks.b, Name: map[string]string{"apiKeyHeader": "X-Key-B", "apiKeyQuery": "kb"}[ks.b]}, {Key: "C", Kind: ks.c, Name: "kc"}}}
+				Schemes: []aspec.Scheme{{Key: "A", Kind: ks.a, Name: map[string]string{"apiKeyHeader": "Authorization"}[ks.a]}, {Key: "B", Kind: ks.b, Name: map[string]string{"apiKeyHeader": "X-Key-B", "apiKeyQuery": "kb"}[ks.b]}, {Key: "C", Kind: ks.c, Name: "kc"}}}
 			type opRef struct{ method, path string }
 			var ops []opRef
 			for i, s := range list {
